@@ -201,11 +201,27 @@ class Cell(NullCell):
         """
         if result is None:
             result = {}
-        if self in result:
-            result.pop(self)
-        result[self] = None
-        for ref in self.refs:
-            ref.order(result)
+        # Every cell ends up at the position of its last pre-order visit, i.e. in reverse
+        # post-order of a traversal that takes references right to left. Each distinct cell
+        # is expanded once (no re-traversal of shared sub-DAGs, no recursion).
+        visited = set()
+        post_order = []
+        stack = [(self, False)]
+        while stack:
+            cell, expanded = stack.pop()
+            if expanded:
+                post_order.append(cell)
+                continue
+            if cell in visited:
+                continue
+            visited.add(cell)
+            stack.append((cell, True))
+            for ref in cell.refs:
+                stack.append((ref, False))
+        for cell in reversed(post_order):
+            if cell in result:
+                result.pop(cell)
+            result[cell] = None
         return result
 
     def serialize(self, indexes: dict, byte_len: int) -> bytes:
